@@ -26,14 +26,14 @@ Definition rej : res aout := Ok (mkO false 0 0 0).
 Record rd := mkRd { r_pos : N; r_err : bool }.
 Definition rd0 : rd := mkRd 0 false.
 
-Fixpoint be (l : list N) (acc : N) : N :=
-  match l with [] => acc | b :: t => be t (acc * 256 + b mod 256) end.
+Fixpoint abe (l : list N) (acc : N) : N :=
+  match l with [] => acc | b :: t => abe t (acc * 256 + b mod 256) end.
 
 (* ReadUint8/16/24/32/64, ReadFixedLengthString(w): 0 and sticky error when pos > len - w *)
 Definition rd_n (body : list N) (w : N) (s : rd) : N * rd :=
   if r_err s then (0, s)
   else if lenN body <? r_pos s + w then (0, mkRd (r_pos s) true)
-  else (be (firstn (N.to_nat w) (skipn (N.to_nat (r_pos s)) body)) 0, mkRd (r_pos s + w) false).
+  else (abe (firstn (N.to_nat w) (skipn (N.to_nat (r_pos s)) body)) 0, mkRd (r_pos s + w) false).
 
 (* ReadBytes(n) / SkipBytes(n) with n >= 0 known: no value needed *)
 Definition rd_skip (body : list N) (w : N) (s : rd) : rd := snd (rd_n body w s).
@@ -62,10 +62,10 @@ Definition has (fl m : N) : bool := negb (N.land fl m =? 0).
 Definition flags_of (vf : N) : N := vf mod 16777216.
 Definition version_of (vf : N) : N := vf / 16777216.
 Definition bN (b : bool) (n : N) : N := if b then n else 0.
-Definition payload_len (hs hl : N) : Z := (Z.of_N hs - Z.of_N hl)%Z.
+Definition apayload_len (hs hl : N) : Z := (Z.of_N hs - Z.of_N hl)%Z.
 
 (* finish: `return b, sr.AccError()` (acc = true) or `return b, nil` *)
-Definition fin (acc : bool) (s : rd) (count alloc iters : N) : res aout :=
+Definition afin (acc : bool) (s : rd) (count alloc iters : N) : res aout :=
   Ok (mkO (negb (acc && r_err s)) count alloc iters).
 
 (* ---- trun (mp4/trun.go DecodeTrun / DecodeTrunSR) ---- *)
@@ -85,7 +85,7 @@ Definition alloc_trun (sr_path : bool) (hs hl : N) (body : list N) : res aout :=
     let s := if has fl 4 then rd_skip body 4 s else s in
     let s := rd_loop body cnt (trun_per_sample fl) s in
     (* DecodeTrun returns t, nil; DecodeTrunSR returns t, sr.AccError() *)
-    fin sr_path s cnt (16 * cnt) cnt.
+    afin sr_path s cnt (16 * cnt) cnt.
 
 (* ---- stts ---- *)
 Definition alloc_stts (hs hl : N) (body : list N) : res aout :=
@@ -93,19 +93,19 @@ Definition alloc_stts (hs hl : N) (body : list N) : res aout :=
   let '(cnt, s) := rd_n body 4 s in
   if negb (hs =? 16 + cnt * 8) then rej
   else let s := rd_loop body cnt 8 s in
-       fin false s cnt (4 * cnt + 4 * cnt) cnt.
+       afin false s cnt (4 * cnt + 4 * cnt) cnt.
 
-(* ---- ctts: make([]uint32, entryCount+1) with entryCount+1 computed in uint32 (g = false: pinned text),
-        then b.EndSampleNr[0] = 0 ---- *)
-Definition alloc_ctts (g : bool) (hs hl : N) (body : list N) : res aout :=
+(* ---- ctts: b.EndSampleNr = make([]uint32, entryCount+1) with entryCount+1 computed in uint32, then
+        b.EndSampleNr[0] = 0: an index panic when entryCount = 2^32-1 (only reachable with a 32 GiB box) ---- *)
+Definition alloc_ctts (hs hl : N) (body : list N) : res aout :=
   let '(vf, s) := rd_n body 4 rd0 in
   let '(cnt, s) := rd_n body 4 s in
   if negb (hs =? 16 + cnt * 8) then rej
   else
-    let n1 := if g then cnt + 1 else (cnt + 1) mod 4294967296 in
+    let n1 := (cnt + 1) mod 4294967296 in
     if n1 =? 0 then Panic
     else let s := rd_loop body cnt 8 s in
-         fin true s cnt (4 * n1 + 4 * cnt) cnt.
+         afin true s cnt (4 * n1 + 4 * cnt) cnt.
 
 (* ---- stsc: the loop is value dependent (sample description id 0 is an error; a second make when the ids differ) ---- *)
 Fixpoint stsc_loop (body : list N) (n : nat) (i : N) (single : N) (extra : bool) (s : rd) : option (bool * rd) :=
@@ -130,7 +130,7 @@ Definition alloc_stsc (hs hl : N) (body : list N) : res aout :=
     (* b.Entries = make([]StscEntry, entryCount): 3 x uint32 *)
     match stsc_loop body (N.to_nat cnt) 0 0 false s with
     | None => Ok (mkO false 0 (12 * cnt + 4 * cnt) cnt)
-    | Some (extra, s) => fin false s cnt (12 * cnt + bN extra (4 * cnt)) cnt
+    | Some (extra, s) => afin false s cnt (12 * cnt + bN extra (4 * cnt)) cnt
     end.
 
 (* ---- stsz ---- *)
@@ -140,34 +140,34 @@ Definition alloc_stsz (hs hl : N) (body : list N) : res aout :=
   let '(number, s) := rd_n body 4 s in
   if negb (hs =? (if 0 <? uniform then 20 else 20 + number * 4)) then rej
   else if uniform =? 0
-       then let s := rd_loop body number 4 s in fin true s number (4 * number) number
-       else fin true s 0 0 0.
+       then let s := rd_loop body number 4 s in afin true s number (4 * number) number
+       else afin true s 0 0 0.
 
 (* ---- stco / co64 / stss ---- *)
 Definition alloc_stco (hs hl : N) (body : list N) : res aout :=
   let '(vf, s) := rd_n body 4 rd0 in
   let '(cnt, s) := rd_n body 4 s in
   if negb (hs =? 16 + cnt * 4) then rej
-  else let s := rd_loop body cnt 4 s in fin true s cnt (4 * cnt) cnt.
+  else let s := rd_loop body cnt 4 s in afin true s cnt (4 * cnt) cnt.
 
 Definition alloc_co64 (hs hl : N) (body : list N) : res aout :=
   let '(vf, s) := rd_n body 4 rd0 in
   let '(cnt, s) := rd_n body 4 s in
   if negb (hs =? 16 + cnt * 8) then rej
-  else let '(it, s) := rd_loop_x body cnt 8 s in fin true s cnt (8 * cnt) it.
+  else let '(it, s) := rd_loop_x body cnt 8 s in afin true s cnt (8 * cnt) it.
 
 Definition alloc_stss (hs hl : N) (body : list N) : res aout :=
   let '(vf, s) := rd_n body 4 rd0 in
   let '(cnt, s) := rd_n body 4 s in
   if negb (hs =? 16 + cnt * 4) then rej
-  else let s := rd_loop body cnt 4 s in fin false s cnt (4 * cnt) cnt.
+  else let s := rd_loop body cnt 4 s in afin false s cnt (4 * cnt) cnt.
 
 (* ---- sdtp: entries := make([]SdtpEntry, hdr.payloadLen()-4) ---- *)
 Definition alloc_sdtp (hs hl : N) (body : list N) : res aout :=
   let '(vf, s) := rd_n body 4 rd0 in
-  if (payload_len hs hl <? 4)%Z then rej
-  else let n := Z.to_N (payload_len hs hl - 4) in
-       let s := rd_loop body n 1 s in fin true s n n n.
+  if (apayload_len hs hl <? 4)%Z then rej
+  else let n := Z.to_N (apayload_len hs hl - 4) in
+       let s := rd_loop body n 1 s in afin true s n n n.
 
 (* ---- saiz ---- *)
 Definition alloc_saiz (hs hl : N) (body : list N) : res aout :=
@@ -178,8 +178,8 @@ Definition alloc_saiz (hs hl : N) (body : list N) : res aout :=
   let '(cnt, s) := rd_n body 4 s in
   if negb (hs =? 17 + bN (has fl 1) 8 + bN (dsis =? 0) cnt) then rej
   else if dsis =? 0
-       then let s := rd_loop body cnt 1 s in fin true s cnt cnt cnt
-       else fin true s 0 0 0.
+       then let s := rd_loop body cnt 1 s in afin true s cnt cnt cnt
+       else afin true s 0 0 0.
 
 (* ---- saio: append in a loop that leaves on AccError ---- *)
 Definition alloc_saio (hs hl : N) (body : list N) : res aout :=
@@ -190,7 +190,7 @@ Definition alloc_saio (hs hl : N) (body : list N) : res aout :=
   let '(cnt, s) := rd_n body 4 s in
   let e := if v =? 0 then 4 else 8 in
   if negb (hs =? 16 + bN (has fl 1) 8 + e * cnt) then rej
-  else let '(it, s) := rd_loop_x body cnt e s in fin true s cnt (8 * it) it.
+  else let '(it, s) := rd_loop_x body cnt e s in afin true s cnt (8 * it) it.
 
 (* ---- senc first phase (DecodeSencSR / DecodeSenc): rawData is a sub-slice, nothing is allocated from the count ---- *)
 Definition alloc_senc (sr_path : bool) (hs hl : N) (body : list N) : res aout :=
@@ -204,10 +204,10 @@ Definition alloc_senc (sr_path : bool) (hs hl : N) (body : list N) : res aout :=
       let fl := flags_of vf in
       if sr_path then
         if has fl 2 && (hs - 16 <? 2 * cnt) then rej
-        else let s := rd_bytes_z body (payload_len hs hl - 8) s in fin true s cnt 0 0
+        else let s := rd_bytes_z body (apayload_len hs hl - 8) s in afin true s cnt 0 0
       else
         if has fl 2 && (lenN body - 8 <? 2 * cnt) then rej
-        else fin false s cnt 0 0.
+        else afin false s cnt 0 0.
 
 (* ---- sbgp ---- *)
 Definition alloc_sbgp (hs hl : N) (body : list N) : res aout :=
@@ -217,7 +217,7 @@ Definition alloc_sbgp (hs hl : N) (body : list N) : res aout :=
   let s := if v =? 1 then rd_skip body 4 s else s in
   let '(cnt, s) := rd_n body 4 s in
   if negb (hs =? 20 + bN (v =? 1) 4 + 8 * cnt) then rej
-  else let '(it, s) := rd_loop_x body cnt 8 s in fin true s cnt (8 * it) it.
+  else let '(it, s) := rd_loop_x body cnt 8 s in afin true s cnt (8 * it) it.
 
 (* ---- elst: make([]ElstEntry, entryCount) (uint64, int64, int16, int16 = 24 bytes) BEFORE the version switch ---- *)
 Definition alloc_elst (hs hl : N) (body : list N) : res aout :=
@@ -225,8 +225,8 @@ Definition alloc_elst (hs hl : N) (body : list N) : res aout :=
   let v := version_of vf in
   let '(cnt, s) := rd_n body 4 s in
   if negb (hs =? 16 + cnt * (if v =? 1 then 20 else 12)) then rej
-  else if v =? 1 then let s := rd_loop body cnt 20 s in fin true s cnt (24 * cnt) cnt
-  else if v =? 0 then let s := rd_loop body cnt 12 s in fin true s cnt (24 * cnt) cnt
+  else if v =? 1 then let s := rd_loop body cnt 20 s in afin true s cnt (24 * cnt) cnt
+  else if v =? 0 then let s := rd_loop body cnt 12 s in afin true s cnt (24 * cnt) cnt
   else Ok (mkO false 0 (24 * cnt) 0).
 
 (* ---- tfra: TfraEntry = 2 x uint64 + 3 x uint32 = 32 bytes ---- *)
@@ -239,7 +239,7 @@ Definition alloc_tfra (hs hl : N) (body : list N) : res aout :=
   let '(sizes, s) := rd_n body 4 s in
   let '(cnt, s) := rd_n body 4 s in
   if negb (hs =? 24 + cnt * tfra_entry v sizes) then rej
-  else let s := rd_loop body cnt (tfra_entry v sizes) s in fin true s cnt (32 * cnt) cnt.
+  else let s := rd_loop body cnt (tfra_entry v sizes) s in afin true s cnt (32 * cnt) cnt.
 
 (* ---- sidx: no size guard; reference_count is 16 bit; SidxRef = 3 x uint32 + 3 x uint8 = 16 bytes, appended ---- *)
 Definition alloc_sidx (hs hl : N) (body : list N) : res aout :=
@@ -250,7 +250,7 @@ Definition alloc_sidx (hs hl : N) (body : list N) : res aout :=
   let s := rd_skip body 2 s in
   let '(cnt, s) := rd_n body 2 s in
   let s := rd_loop body cnt 12 s in
-  fin true s cnt (16 * cnt) cnt.
+  afin true s cnt (16 * cnt) cnt.
 
 (* ---- pssh: KIDs appended in a loop that leaves on AccError; UUID is a 16-byte []byte (24-byte header) ---- *)
 Definition alloc_pssh (hs hl : N) (body : list N) : res aout :=
@@ -264,11 +264,11 @@ Definition alloc_pssh (hs hl : N) (body : list N) : res aout :=
     else
       let '(dl, s) := rd_n body 4 s in
       let s := if 0 <? dl then rd_skip body dl s else s in
-      fin true s cnt (40 * it) it
+      afin true s cnt (40 * it) it
   else
     let '(dl, s) := rd_n body 4 s in
     let s := if 0 <? dl then rd_skip body dl s else s in
-    fin true s 0 0 0.
+    afin true s 0 0 0.
 
 (* ---- ssix: counts checked against the box size; only the first allocation (make([]SubSegment, n), 24-byte
         elements) is modelled, the per-sub-segment ranges are value dependent ---- *)
@@ -283,9 +283,9 @@ Definition alloc_ssix (hs hl : N) (body : list N) : res aout :=
 
 (* ---- tref type boxes: nrIds := hdr.payloadLen() / 4 ---- *)
 Definition alloc_treftype (hs hl : N) (body : list N) : res aout :=
-  let n := Z.to_N (payload_len hs hl / 4) in
+  let n := Z.to_N (apayload_len hs hl / 4) in
   let s := rd_loop body n 4 rd0 in
-  fin true s n (4 * n) n.
+  afin true s n (4 * n) n.
 
 (* ---- leva: level_count is 8 bit; LevaLevel = 4 x uint32 + uint8 = 20 bytes ---- *)
 Definition alloc_leva_prologue (hs hl : N) (body : list N) : res aout :=
@@ -321,7 +321,7 @@ Definition alloc_sgpd_alst (g : bool) (hs hl : N) (body : list N) : res aout :=
   let '(dlen, s) := if 1 <=? v then rd_n body 4 s else (0, s) in
   let s := if 2 <=? v then rd_skip body 4 s else s in
   let '(cnt, s) := rd_n body 4 s in
-  if cnt =? 0 then fin true s 0 0 0
+  if cnt =? 0 then afin true s 0 0 0
   else
     let '(len1, s) := if (1 <=? v) && (dlen =? 0) then rd_n body 4 s else (dlen, s) in
     if len1 =? 0 then rej
@@ -334,77 +334,77 @@ Definition alloc_sgpd_alst (g : bool) (hs hl : N) (body : list N) : res aout :=
 (* ---- box level: header, the size guard of DecodeBoxSR / the body read of readBoxBody, dispatch on the type ---- *)
 Definition name_of (bs : list N) : list N := firstn 4 (skipn 4 bs).
 
-Inductive tbox := TTrun | TStts | TCtts | TStsc | TStsz | TStco | TCo64 | TStss | TSdtp | TSaiz | TSaio | TSenc
-                | TSbgp | TElst | TTfra | TSidx | TPssh | TSsix | TTrefType | TLeva.
+Inductive tbox := TbTrun | TbStts | TbCtts | TbStsc | TbStsz | TbStco | TbCo64 | TbStss | TbSdtp | TbSaiz | TbSaio | TbSenc
+                | TbSbgp | TbElst | TbTfra | TbSidx | TbPssh | TbSsix | TbTrefType | TbLeva.
 
-Definition eqb_name (a b : list N) : bool :=
+Definition aeqb_name (a b : list N) : bool :=
   match a, b with
   | [a0; a1; a2; a3], [b0; b1; b2; b3] => (a0 =? b0) && (a1 =? b1) && (a2 =? b2) && (a3 =? b3)
   | _, _ => false
   end.
 
 Definition tbox_of (nm : list N) : option tbox :=
-  if eqb_name nm [116;114;117;110] then Some TTrun else
-  if eqb_name nm [115;116;116;115] then Some TStts else
-  if eqb_name nm [99;116;116;115] then Some TCtts else
-  if eqb_name nm [115;116;115;99] then Some TStsc else
-  if eqb_name nm [115;116;115;122] then Some TStsz else
-  if eqb_name nm [115;116;99;111] then Some TStco else
-  if eqb_name nm [99;111;54;52] then Some TCo64 else
-  if eqb_name nm [115;116;115;115] then Some TStss else
-  if eqb_name nm [115;100;116;112] then Some TSdtp else
-  if eqb_name nm [115;97;105;122] then Some TSaiz else
-  if eqb_name nm [115;97;105;111] then Some TSaio else
-  if eqb_name nm [115;101;110;99] then Some TSenc else
-  if eqb_name nm [115;98;103;112] then Some TSbgp else
-  if eqb_name nm [101;108;115;116] then Some TElst else
-  if eqb_name nm [116;102;114;97] then Some TTfra else
-  if eqb_name nm [115;105;100;120] then Some TSidx else
-  if eqb_name nm [112;115;115;104] then Some TPssh else
-  if eqb_name nm [115;115;105;120] then Some TSsix else
-  if eqb_name nm [104;105;110;116] then Some TTrefType else   (* hint; cdsc font hind vdep vplx subt share the decoder *)
-  if eqb_name nm [108;101;118;97] then Some TLeva else
+  if aeqb_name nm [116;114;117;110] then Some TbTrun else
+  if aeqb_name nm [115;116;116;115] then Some TbStts else
+  if aeqb_name nm [99;116;116;115] then Some TbCtts else
+  if aeqb_name nm [115;116;115;99] then Some TbStsc else
+  if aeqb_name nm [115;116;115;122] then Some TbStsz else
+  if aeqb_name nm [115;116;99;111] then Some TbStco else
+  if aeqb_name nm [99;111;54;52] then Some TbCo64 else
+  if aeqb_name nm [115;116;115;115] then Some TbStss else
+  if aeqb_name nm [115;100;116;112] then Some TbSdtp else
+  if aeqb_name nm [115;97;105;122] then Some TbSaiz else
+  if aeqb_name nm [115;97;105;111] then Some TbSaio else
+  if aeqb_name nm [115;101;110;99] then Some TbSenc else
+  if aeqb_name nm [115;98;103;112] then Some TbSbgp else
+  if aeqb_name nm [101;108;115;116] then Some TbElst else
+  if aeqb_name nm [116;102;114;97] then Some TbTfra else
+  if aeqb_name nm [115;105;100;120] then Some TbSidx else
+  if aeqb_name nm [112;115;115;104] then Some TbPssh else
+  if aeqb_name nm [115;115;105;120] then Some TbSsix else
+  if aeqb_name nm [104;105;110;116] then Some TbTrefType else   (* hint; cdsc font hind vdep vplx subt share the decoder *)
+  if aeqb_name nm [108;101;118;97] then Some TbLeva else
   None.
 
 Definition alloc_table (t : tbox) (sr_path : bool) (hs hl : N) (body : list N) : res aout :=
   match t with
-  | TTrun => alloc_trun sr_path hs hl body
-  | TStts => alloc_stts hs hl body
-  | TCtts => alloc_ctts true hs hl body
-  | TStsc => alloc_stsc hs hl body
-  | TStsz => alloc_stsz hs hl body
-  | TStco => alloc_stco hs hl body
-  | TCo64 => alloc_co64 hs hl body
-  | TStss => alloc_stss hs hl body
-  | TSdtp => alloc_sdtp hs hl body
-  | TSaiz => alloc_saiz hs hl body
-  | TSaio => alloc_saio hs hl body
-  | TSenc => alloc_senc sr_path hs hl body
-  | TSbgp => alloc_sbgp hs hl body
-  | TElst => alloc_elst hs hl body
-  | TTfra => alloc_tfra hs hl body
-  | TSidx => alloc_sidx hs hl body
-  | TPssh => alloc_pssh hs hl body
-  | TSsix => alloc_ssix hs hl body
-  | TTrefType => alloc_treftype hs hl body
-  | TLeva => alloc_leva_prologue hs hl body
+  | TbTrun => alloc_trun sr_path hs hl body
+  | TbStts => alloc_stts hs hl body
+  | TbCtts => alloc_ctts hs hl body
+  | TbStsc => alloc_stsc hs hl body
+  | TbStsz => alloc_stsz hs hl body
+  | TbStco => alloc_stco hs hl body
+  | TbCo64 => alloc_co64 hs hl body
+  | TbStss => alloc_stss hs hl body
+  | TbSdtp => alloc_sdtp hs hl body
+  | TbSaiz => alloc_saiz hs hl body
+  | TbSaio => alloc_saio hs hl body
+  | TbSenc => alloc_senc sr_path hs hl body
+  | TbSbgp => alloc_sbgp hs hl body
+  | TbElst => alloc_elst hs hl body
+  | TbTfra => alloc_tfra hs hl body
+  | TbSidx => alloc_sidx hs hl body
+  | TbPssh => alloc_pssh hs hl body
+  | TbSsix => alloc_ssix hs hl body
+  | TbTrefType => alloc_treftype hs hl body
+  | TbLeva => alloc_leva_prologue hs hl body
   end.
 
 (* DecodeHeaderSR / DecodeHeader on the first bytes: (size, header length); size 0 and size < header are errors *)
 Definition hdr_of (bs : list N) : option (N * N) :=
   if lenN bs <? 8 then None
   else
-    let size := be (firstn 4 bs) 0 in
+    let size := abe (firstn 4 bs) 0 in
     if size =? 1 then
       if lenN bs <? 16 then None
-      else let size := be (firstn 8 (skipn 8 bs)) 0 in
+      else let size := abe (firstn 8 (skipn 8 bs)) 0 in
            if size <? 16 then None else Some (size, 16)
     else if size =? 0 then None
     else if size <? 8 then None else Some (size, 8).
 
 (* an sgpd box whose grouping type is alst *)
 Definition is_sgpd_alst (bs : list N) (hl : N) : bool :=
-  eqb_name (name_of bs) [115;103;112;100] && eqb_name (firstn 4 (skipn (N.to_nat hl + 4) bs)) [97;108;115;116].
+  aeqb_name (name_of bs) [115;103;112;100] && aeqb_name (firstn 4 (skipn (N.to_nat hl + 4) bs)) [97;108;115;116].
 
 (* DecodeBoxSR(0, NewFixedSliceReader(bs)) restricted to the table boxes (None: another box type) *)
 Definition alloc_box_sr (bs : list N) : option (res aout) :=
